@@ -281,6 +281,8 @@ class CTMCGridGeometric(CTMCGrid):
         l, r = compute_truncation(
             model=model, h=h, truncation_probability=truncation_probability
         )
+        if not (l < -h and h < r):
+            raise ValueError("h is too large for the truncation bounds")
         axis_right = np.geomspace(start=h, stop=r, num=nb_of_points_on_each_side)
         axis_left = np.geomspace(start=l, stop=-h, num=nb_of_points_on_each_side)
         axis = np.concatenate((axis_left, [0.0], axis_right))
@@ -307,6 +309,8 @@ class CTMCGridGeometric(CTMCGrid):
         if nb_of_points_on_each_side < 2:
             raise ValueError("expected nb_of_points_on_each_side >= 2")
         l, r = truncations
+        if not (l < -h and h < r):
+            raise ValueError("h is too large for the truncation bounds")
         axis_right = np.geomspace(start=h, stop=r, num=nb_of_points_on_each_side)
         axis_left = np.geomspace(start=l, stop=-h, num=nb_of_points_on_each_side)
         axis = np.concatenate((axis_left, [0.0], axis_right))
